@@ -65,6 +65,8 @@ package mint
 //@   loop range(blindedMessages) invariant 0 <= i && i <= len(blindedMessages) && len(blindedSignatures) == len(blindedMessages) && sum.sig.amount(seq(blindedSignatures), i) == sum.bm.amount(seq(blindedMessages), i) && (forall j :: 0 <= j && j < i ==> blindedSignatures[j].Amount == blindedMessages[j].Amount && blindedSignatures[j].Id == m.activeKeyset.Id && blindedMessages[j].Id == m.activeKeyset.Id && blindedSignatures[j].DLEQ != nil && (blindedMessages[j].Amount in m.activeKeyset.Keys) && signedby(blindedSignatures[j], blindedMessages[j], sc.of(m.activeKeyset.Keys[blindedMessages[j].Amount].PrivateKey.Key)))
 
 //@ func (*Mint).Swap
+// rely/guarantee tier: with other requests acting between any two store calls, a successful swap has its inputs spent
+//@   rgensures @spent [C01] err == nil ==> (forall i :: 0 <= i && i < len(proofs) ==> db.spent[Yof(proofs[i].Secret)])
 //@   records api.err api.calls
 //@   ensures @cashuerr [C20] err != nil ==> iscashu(err) && !valinternal(err) && !lnerr(err)
 //@   tags C01 C02 C06 C15 C12 C07
@@ -90,6 +92,7 @@ package mint
 //@   ensures @len [C02,C15] err == nil ==> len(result) == len(blindedMessages)
 
 //@ func (*Mint).GetMintQuoteState
+//@   rgensures @exists [C03] err == nil ==> db.mq[quoteId] && r0.Id == quoteId && r0.Amount == db.mqrow[quoteId].Amount
 //@   records api.err api.calls
 //@   ensures @cashuerr [C20] err != nil ==> iscashu(err) && !valinternal(err)
 //@   tags C03
@@ -103,6 +106,9 @@ package mint
 //@   ensures @transition [C03] db.mqrow[quoteId] == old(db.mqrow)[quoteId] || (old(db.mqrow)[quoteId].State == nut04.Unpaid && db.mqrow[quoteId] == setfield(old(db.mqrow)[quoteId], "State", nut04.Paid))
 
 //@ func (*Mint).MintTokens
+// rely/guarantee tier: with other requests (other mint requests for the same quote, state polls, the
+// invoice watcher) acting between any two store calls, every state write is still a legal step
+//@   rgensures @exists [C03] err == nil ==> db.mq[mintTokensRequest.Quote]
 //@   records api.err api.calls
 //@   ensures @cashuerr [C20] err != nil ==> iscashu(err) && !valinternal(err)
 //@   tags C03 C02 C06 C15 C07
@@ -167,6 +173,8 @@ package mint
 //@ macro payfailed() = ln.payerr != nil || ln.pay.PaymentStatus == lightning.Failed
 
 //@ func (*Mint).MeltTokens
+// rely/guarantee tier: the melt's own store steps stay within the rely of the other requests
+//@   rgensures @quoteexists [C01] err == nil ==> db.melt[meltTokensRequest.Quote]
 //@   records api.err api.calls
 //@   ensures @cashuerr [C20] err != nil ==> iscashu(err) && !valinternal(err)
 //@   tags C01 C02 C05 C06 C15 C07
